@@ -45,6 +45,7 @@ def step (l : Line) : Verdict :=
         | .init => .ok
     | _, _ => .bad "req args"
   | "issue", _, _ => .ok
+  | "task", _, _ => .ok      -- the operator queues tasks: state for the requests that follow
   | op, _, _ => .bad s!"unknown op {op} / output {joinSp l.impl}"
 
 end Havoc.DriverC01
